@@ -30,7 +30,7 @@ THEOREMS = ['c14_views', 'c14_decision_reauthorize', 'c14_reauthorize_concrete',
             'c14_query_exact', 'c14_query_brute', 'c14_query_action_label', 'c14_query_action_complete',
             'c14_and_false_needs_noerr', 'c14_interp_sound_partial', 'c14_residual_of_typed_expr',
             'c14_policy_sound_partial', 'c14_decision_sound_partial', 'c14_reauthorize_sound_partial',
-            'c14_query_sound_partial']
+            'c14_query_sound_partial', 'c14_noerr_from_typing_partial']
 
 MANIFEST = {
     "text": "Gallina model of the type-aware partial evaluator (tpe/evaluator.rs interpret arm by arm, residual.rs "
@@ -432,6 +432,9 @@ def make_world(rng, targeted):
 
 def tpe_case(rng, w, n_alt=3, n_bad=2):
     n_alt, n_bad = tpe_case.n_alt, tpe_case.n_bad
+    if tpe_case.n_bad == 1:               # quick tier: an inconsistent completion on every other case
+        tpe_case.flip = not getattr(tpe_case, "flip", False)
+        n_bad = 1 if tpe_case.flip else 0
     r = rng
     meta = partialise(r, w)
     comps = [(w.q, w.es, "orig")]
